@@ -182,7 +182,15 @@ def triage(ctx, res, rows_by_id, tag, max_sigs=12, layer="L1"):
     # re-execute: the failing row alone; for the input-hash check (which relates rows) the rows of its shard up to it
     rerun, want = [], []
     for sig, (f, line, check, e, events) in todo:
-        ids = [x["id"] for x in events[:line]] if check == "audit_hash" else [e["id"]]
+        ids = [e["id"]]
+        if check == "audit_hash":       # relates two calls: the earlier call with the clashing input hash comes first
+            ids = [x["id"] for x in events[:line]]
+            h = e["audits"][0]["ihash"] if e["audits"] else None
+            for x in events[:line - 1]:
+                xh = x["audits"][0]["ihash"] if x["audits"] else None
+                if xh is not None and ((x["args_sha"] != e["args_sha"]) == (xh == h)):
+                    ids = [x["id"], e["id"]]
+                    break
         first = len(rerun) + 1
         for i in ids:
             rerun.append(rows_by_id[i])
